@@ -27,6 +27,7 @@
 #include <atomic>
 #include <condition_variable>
 #include <iostream>
+#include <memory>
 #include <mutex>
 #include <thread>
 
@@ -52,37 +53,44 @@ OP(spin)
 namespace
 {
 
-// Persistent worker threads: creating threads under ThreadSanitizer is expensive, and a condition
-// variable barrier does not burn the (shared) machine the way a yield loop does.  All workers of a
-// round are released by one notify_all, i.e. they start their lists at the same moment; the only
-// synchronisation between them is this start barrier and the completion count.
+// Persistent worker threads (creating threads under ThreadSanitizer is expensive).  The barrier is
+// built so that the ONLY happens-before edges of a round are main -> worker (start) and
+// worker -> main (completion); in particular no edge orders one worker's list before another's:
+//   * every worker sleeps on its own mutex / condition variable, shared with the main thread only;
+//   * after all workers of the round have been armed they are released together by one atomic flag
+//     written by the main thread alone.
+// (With a mutex shared by the workers, "worker 0 finished and went back to sleep" would
+// happen-before "worker 1 wakes up late", and ThreadSanitizer would rightly stay silent about
+// everything worker 0 did - measured: the two-thread control program was missed in 1 of 4 runs.)
 class Workers
 {
-    std::mutex m;
-    std::condition_variable cv_go, cv_done;
-    std::vector<std::thread> th;
-    std::function<void(size_t)> job;
-    size_t round = 0, active = 0, pending = 0;
-    bool quit = false;
+    struct Slot {
+        std::mutex m;
+        std::condition_variable cv;
+        bool start = false, done = false, quit = false;
+        std::thread th;
+    };
+    std::vector<std::unique_ptr<Slot>> slots;
+    std::function<void(size_t)> job; // written by main before arming, read by armed workers
+    std::atomic<bool> go{false};
 
-    void loop(size_t id)
+    void loop(size_t id, Slot *s)
     {
-        size_t seen = 0;
         for (;;) {
-            std::function<void(size_t)> j;
             {
-                std::unique_lock<std::mutex> lk(m);
-                cv_go.wait(lk, [&] { return quit || (round != seen && id < active); });
-                if (quit)
+                std::unique_lock<std::mutex> lk(s->m);
+                s->cv.wait(lk, [&] { return s->start || s->quit; });
+                if (s->quit)
                     return;
-                seen = round;
-                j = job;
+                s->start = false;
             }
-            j(id);
+            while (!go.load(std::memory_order_acquire))
+                std::this_thread::yield();
+            job(id);
             {
-                std::unique_lock<std::mutex> lk(m);
-                if (--pending == 0)
-                    cv_done.notify_all();
+                std::unique_lock<std::mutex> lk(s->m);
+                s->done = true;
+                s->cv.notify_all();
             }
         }
     }
@@ -90,28 +98,37 @@ class Workers
 public:
     void run(size_t n, std::function<void(size_t)> f)
     {
-        while (th.size() < n) {
-            size_t id = th.size();
-            th.emplace_back([this, id] { loop(id); });
+        while (slots.size() < n) {
+            size_t id = slots.size();
+            slots.emplace_back(new Slot());
+            Slot *s = slots.back().get();
+            s->th = std::thread([this, id, s] { loop(id, s); });
         }
-        std::unique_lock<std::mutex> lk(m);
+        go.store(false, std::memory_order_relaxed);
         job = f;
-        active = n;
-        pending = n;
-        round++;
-        cv_go.notify_all();
-        cv_done.wait(lk, [&] { return pending == 0; });
-        active = 0;
+        for (size_t i = 0; i < n; i++) {
+            std::unique_lock<std::mutex> lk(slots[i]->m);
+            slots[i]->start = true;
+            slots[i]->cv.notify_all();
+        }
+        go.store(true, std::memory_order_release);
+        for (size_t i = 0; i < n; i++) {
+            std::unique_lock<std::mutex> lk(slots[i]->m);
+            slots[i]->cv.wait(lk, [&] { return slots[i]->done; });
+            slots[i]->done = false;
+        }
+        job = nullptr;
     }
     ~Workers()
     {
-        {
-            std::unique_lock<std::mutex> lk(m);
-            quit = true;
-            cv_go.notify_all();
+        for (auto &s : slots) {
+            {
+                std::unique_lock<std::mutex> lk(s->m);
+                s->quit = true;
+                s->cv.notify_all();
+            }
+            s->th.join();
         }
-        for (auto &x : th)
-            x.join();
     }
 };
 Workers &workers()
